@@ -21,7 +21,7 @@
 From Coq Require Import List ZArith NArith Permutation.
 From Astisub Require Import Kit.Base Kit.Str Kit.Scan Model.Dur Model.Vtt Proofs.VttIOProofs Proofs.VttBase Proofs.VttLine Proofs.VttSimple Proofs.VttDoc Proofs.EolProofs.
 From Astisub Require Import Proofs.VttReadTime Proofs.VttReadLine Proofs.VttReadDoc Proofs.VttReadDec Proofs.VttNeeds Proofs.VttDomain Proofs.VttWriteRender.
-From Astisub Require Import Kit.Chk Model.VttC Proofs.VttChk.
+From Astisub Require Import Kit.Chk Model.VttC Proofs.VttChk Proofs.VttKeyed.
 From Coq Require Strings.String.
 Import Strings.String.StringSyntax.
 Delimit Scope string_scope with string.
@@ -335,3 +335,45 @@ Print Assumptions C02_checked_reader_total.
 Theorem C02_checked_writer_total : forall d so ro p, write_vtt_c d so ro <> Panic p.
 Proof. exact write_vtt_c_no_panic. Qed.
 Print Assumptions C02_checked_writer_total.
+
+(* ---- the writer over keyed maps (second audit, N5; webvtt.go:491-565 after the library fix a3e0487) ----
+   Subtitles.Styles and Subtitles.Regions are Go maps: a key need not be the ID field of the value under it and a value
+   may be nil.  [so] and [ro] are ALL the keys of the two maps (in the order the runtime ranges over them: irrelevant by
+   C02_writer_order_independent); the value under a key is its look-up in vd_styles / vd_regions, None standing for a nil
+   pointer (for a style, Some None is a Style whose InlineStyle is nil).  For EVERY document with a cue and all key lists
+   -- no key = id hypothesis, no distinctness hypothesis -- the bytes are the lines of keyed_hdr_lines followed by the cue
+   lines: header, timestamp map, the STYLE block made of the WebVTTStyles found under the sorted style keys, one Region
+   line per non-nil value in the order of the sorted KEYS (keyed_regions) showing the value's own ID, and one empty line
+   when the regions map has a key at all, nil values included (match ro with nil => no line).  When every listed key
+   carries a value whose ID is the key (regions_keyed, which repr_vdoc implies) this is the reading by identifier of
+   C02_write_read (hdr_lines).  The Examples are the inputs run on the library (notes/C02.md, section N5): the audit's
+   witness Regions{b:{ID:x}, a:{ID:y}} writes the line of y before the line of x, whatever the iteration order; a map
+   with only nil values writes the empty line alone; two keys with one ID write two lines. *)
+Theorem C02_writer_keyed_maps : forall d so ro, vd_items d <> [] ->
+  write_vtt d so ro = Ok (removelast (unlines (keyed_hdr_lines d so ro ++ items_lines 0 (vd_items d)))).
+Proof. exact write_vtt_keyed. Qed.
+Print Assumptions C02_writer_keyed_maps.
+Theorem C02_writer_keyed_maps_by_id : forall d so ro, regions_keyed d ro -> keyed_hdr_lines d so ro = hdr_lines d so ro.
+Proof. exact keyed_hdr_lines_keyed. Qed.
+Print Assumptions C02_writer_keyed_maps_by_id.
+Example C02_writer_keyed_maps_witness : forall ro, In ro [[b "b"; b "a"]; [b "a"; b "b"]] ->
+  write_vtt (mkVdoc [kx_item] [(b "b", mkVregion (b "x") None None); (b "a", mkVregion (b "y") None None)] [] None) [] ro =
+  Ok (b "WEBVTT" ++ [10; 10]%N ++ b "Region: id=y" ++ [10%N] ++ b "Region: id=x" ++ [10; 10]%N ++
+      b "1" ++ [10%N] ++ b "00:00:01.000 --> 00:00:02.000" ++ [10%N] ++ b "a" ++ [10%N]).
+Proof. exact keyed_witness. Qed.
+Example C02_writer_keyed_maps_only_nil :
+  write_vtt (mkVdoc [kx_item] [] [] None) [] [b "b"; b "a"] =
+  Ok (b "WEBVTT" ++ [10; 10; 10]%N ++ b "1" ++ [10%N] ++ b "00:00:01.000 --> 00:00:02.000" ++ [10%N] ++ b "a" ++ [10%N]) /\
+  write_vtt (mkVdoc [kx_item] [] [] None) [] [] =
+  Ok (b "WEBVTT" ++ [10; 10]%N ++ b "1" ++ [10%N] ++ b "00:00:01.000 --> 00:00:02.000" ++ [10%N] ++ b "a" ++ [10%N]).
+Proof. exact keyed_only_nil. Qed.
+Example C02_writer_keyed_maps_duplicate_id :
+  write_vtt (kx_doc [(b "b", kx_rg "x" "10%"); (b "a", kx_rg "x" "20%")] []) [] [b "b"; b "a"] =
+  Ok (b "WEBVTT" ++ [10; 10]%N ++ b "Region: id=x width=20%" ++ [10%N] ++ b "Region: id=x width=10%" ++ [10; 10]%N ++
+      b "1" ++ [10%N] ++ b "00:00:01.000 --> 00:00:02.000" ++ [10%N] ++ b "a" ++ [10%N]).
+Proof. exact keyed_duplicate_id. Qed.
+Example C02_writer_keyed_maps_styles :
+  write_vtt (kx_doc [] [(b "b", Some [b "sb1"; b "sb2"]); (b "a", Some [b "sa"])]) [b "b"; b "a"] [] =
+  Ok (b "WEBVTT" ++ [10; 10]%N ++ b "STYLE" ++ [10%N] ++ b "sa" ++ [10%N] ++ b "sb1" ++ [10%N] ++ b "sb2" ++ [10; 10]%N ++
+      b "1" ++ [10%N] ++ b "00:00:01.000 --> 00:00:02.000" ++ [10%N] ++ b "a" ++ [10%N]).
+Proof. exact (proj1 keyed_styles). Qed.
